@@ -120,10 +120,39 @@ pub const PROBE_TAILS: [&str; 7] = [
     "--- !h1!a b\n",
     "--- [*a1, &a1 x, *a1]\n--- *a1\n",
 ];
+/// Deep nests around the widths of the counters a driver may keep (u8, u15, u16): the worker
+/// threads have 256 MiB stacks, so the recursive push driver gets to 70 000 levels.
+pub const DEEP_DEPTHS: [usize; 9] = [255, 256, 257, 32_767, 32_768, 65_535, 65_536, 65_537, 70_000];
+pub const DEEP_OPENERS: [&str; 4] = ["- ", "? ", "- ? ", "- - k: "];
+pub fn deep_count() -> u64 {
+    (DEEP_DEPTHS.len() * DEEP_OPENERS.len() * 3) as u64
+}
 pub fn probe_count() -> u64 {
-    (PROBE_FAMILIES.len() * PROBE_SIZES.len() * PROBE_TAILS.len() * 3) as u64
+    (PROBE_FAMILIES.len() * PROBE_SIZES.len() * PROBE_TAILS.len() * 3) as u64 + deep_count()
 }
 fn probe_case(k: u64) -> Case {
+    if k < deep_count() {
+        let client = [Client::PeekNext, Client::LoadMulti, Client::LoadSingle][(k % 3) as usize].clone();
+        let j = k / 3;
+        let opener = DEEP_OPENERS[(j % DEEP_OPENERS.len() as u64) as usize];
+        let depth = DEEP_DEPTHS[((j / DEEP_OPENERS.len() as u64) % DEEP_DEPTHS.len() as u64) as usize];
+        let per = opener.matches(['-', '?', ':']).count().max(1);
+        let mut text = String::with_capacity(depth * 3);
+        for _ in 0..depth / per {
+            text.push_str(opener);
+        }
+        text.push_str("a\n");
+        return Case {
+            prop: "C17".into(),
+            gen: "L-deep".into(),
+            text,
+            input: InputKind::Str,
+            peeks: if client == Client::PeekNext { vec![0, 0, 1, 0] } else { vec![] },
+            client,
+            ..Case::default()
+        };
+    }
+    let k = k - deep_count();
     let client = [Client::PeekNext, Client::LoadMulti, Client::LoadSingle][(k % 3) as usize].clone();
     let k = k / 3;
     let tail = PROBE_TAILS[(k % PROBE_TAILS.len() as u64) as usize];
@@ -154,7 +183,7 @@ pub fn exhaustive_plan(ctx: &Ctx, thorough: bool) -> (u64, String) {
     (
         total + probe_count(),
         format!(
-            "every peek/next history (0..2 peeks before each next, 7 after-StreamEnd tails) of {} streams with up to {} events; plus {} large probe streams ({:?} at {:?} bytes x 7 back-referring tail documents x 3 clients)",
+            "every peek/next history (0..2 peeks before each next, 7 after-StreamEnd tails) of {} streams with up to {} events; plus {} large probe streams ({:?} at {:?} bytes x 7 back-referring tail documents x 3 clients, and block nests of 255..70 000 levels x 4 openers x 3 clients)",
             t.len(),
             max_m,
             probe_count(),
